@@ -635,6 +635,18 @@ fn run(op: &Value) -> Value {
                 Err(e) => json!({"ok": false, "calls": c, "cause": e.cause().to_string()}),
             }
         }
+        "error_instance_id" => {
+            // C17: an explicitly supplied instance id survives encode() and Error::service_safe when the error is handed over by value,
+            // behind a reference, behind a reference to a reference, or boxed
+            use conjure_error::{ErrorType, InvalidArgument};
+            let id = conjure_object::Uuid::from_u128(0x0123456789abcdef0123456789abcdef);
+            let e = InvalidArgument::new().with_instance_id(id);
+            let by_ref = conjure_error::encode(&e).error_instance_id() == id;
+            let by_ref_ref = conjure_error::encode(&&e).error_instance_id() == id;
+            let via_service = match conjure_error::Error::service_safe("cause", &e).kind() { conjure_error::ErrorKind::Service(s) => s.error_instance_id() == id, _ => false };
+            let meta = (&e).code() == e.code() && (&e).name() == e.name() && (&e).safe_args() == e.safe_args();
+            json!({"ok": by_ref && by_ref_ref && via_service && meta, "by_ref": by_ref, "by_ref_ref": by_ref_ref, "service_ref": via_service, "meta": meta})
+        }
         "gen_error" => {
             // C17: error types emitted by the real generator: ErrorType metadata, encode(), and the safe/unsafe partition of Error::service_safe
             use conjure_error::ErrorType;
